@@ -120,7 +120,9 @@ Apply(e) ==
            ELSE IF e.why = "token"
            THEN IF ns[n].tok > 0
                 THEN S([ns EXCEPT ![n].tok = @ - 1, ![n].su = None], [pc EXCEPT ![n] = [ph |-> "woken"]], pend, dm, bm, {})
-                ELSE Fail("woken by a token the specification does not have")
+                ELSE \* a wake-up the specification did not ask for: redundant, not wrong - the pass it starts is predicted
+                     \* (and checked) like any other; only a MISSING wake-up can break a property
+                     S([ns EXCEPT ![n].su = None], [pc EXCEPT ![n] = [ph |-> "woken"]], pend, dm, bm, {})
            ELSE IF ns[n].su = e.t
                 THEN S([ns EXCEPT ![n].su = None], [pc EXCEPT ![n] = [ph |-> "woken"]], pend, dm, bm, {})
                 ELSE Fail("wake-up time differs from the sleep the specification computed")
@@ -144,16 +146,20 @@ Apply(e) ==
                      IF e.tok = 1
                      THEN IF ~pe.slept /\ r.pc.nw - e.t > 0
                           THEN S([ns EXCEPT ![n] = pe.ns], [pc EXCEPT ![n] = pe.pc], pend, dm, bm, {})
+                          ELSE IF pe.slept
+                          THEN \* a redundant wake-up token: the code runs one more pass instead of sleeping
+                               S([ns EXCEPT ![n] = [pe.ns EXCEPT !.su = None]], [pc EXCEPT ![n] = [ph |-> "again"]], pend, dm, bm, {})
                           ELSE Fail("token consumed where the specification has none")
-                     ELSE IF pe.slept /\ (IF tmr[n] # None /\ tmr[n] + WakeLat < pe.until THEN tmr[n] + WakeLat ELSE pe.until) = e.until
+                     \* sleeping SHORTER than necessary is harmless (an extra pass); sleeping longer serves something late
+                     ELSE IF pe.slept /\ e.until <= (IF tmr[n] # None /\ tmr[n] + WakeLat < pe.until THEN tmr[n] + WakeLat ELSE pe.until) /\ e.until > e.t
                           THEN S([ns EXCEPT ![n] = [pe.ns EXCEPT !.su = e.until]], [pc EXCEPT ![n] = pe.pc], pend, dm, bm, {})
                           ELSE Fail("sleep time differs from the specification (lost or late wake-up)")
       [] e.ev = "abs" ->
            IF pc[n].ph # "idle" \/ pend[n] # <<>> THEN S(ns, pc, pend, dm, bm, {})   \* only compared at rest
            ELSE IF e.snd # AbsSnd(ns[n].snd) THEN Fail("send session table differs")
            ELSE IF e.rcv # AbsRcv(ns[n].rcv) THEN Fail("receive session table differs")
-           ELSE IF e.tok # ns[n].tok THEN Fail("wake-up tokens differ")
-           ELSE S(ns, pc, pend, dm, bm, {})
+           ELSE IF e.tok < ns[n].tok THEN Fail("wake-up tokens differ")          \* a lost wake-up; more tokens are redundant wake-ups
+           ELSE S([ns EXCEPT ![n].tok = e.tok], pc, pend, dm, bm, {})
       [] e.ev = "perr" -> IF Tr.expect.bus THEN Fail(e.msg) ELSE S(ns, pc, pend, dm, bm, {})
       [] e.ev = "jobdead" -> Fail("job thread died")
       [] e.ev = "spin" -> Fail("job thread busy-spins")
